@@ -280,54 +280,56 @@ void h_viol_to_string(void) { const int base = 10; VF_INPUT_BOOL(uns); unsigned 
   else { FMT_VAL(i32, 32, 10); __CPROVER_assume(n + 1 > 4); to_string_4_int(v, &size, out); }
   VF_NORETURN_EXPECTED(); }
 
-/* =========================================== 16 bit, symbolic base (thorough) ============================================ */
-/*@GROUP name=to_chars_i16 props=C10,C02 kind=K unwind=20 tier=thorough timeout=1200 solver=kissat cost=8@*/
-void h_to_chars_i16(void) { SYM_BASE(); FMT_PRE(i16, 16, 16, 18);
+/* =========================================== 16 bit (thorough) ======================================================== */
+/* one cell per base 2..36 (split=CC_B:2:36): with a symbolic base the 16-bit division/multiplication relations need > 20 min per group,
+ * with a constant base seconds per cell; the 35 cells together are the complete (type, every base) proof. */
+/*@GROUP name=to_chars_i16 props=C10,C02 kind=K unwind=20 tier=thorough timeout=600 cost=3 split=CC_B:2:36@*/
+void h_to_chars_i16(void) { const int base = CC_B; FMT_PRE(i16, 16, 16, 18);
   VF_KNOWN(C10_format_store_before_length_check, v != 0 && (L == 0 || (L == 1 && v < 0 && base == 10)));
   VF_KNOWN(C10_to_chars_exact_fit_rejected, v != 0 && L == n);
   VF_KNOWN(C10_format_sign_only_base10, v < 0 && base != 10);
   TO_CHARS_POST(i16, 16, 16); }
 
-/*@GROUP name=to_chars_u16 props=C10,C02 kind=K unwind=20 tier=thorough timeout=1200 solver=kissat cost=8@*/
-void h_to_chars_u16(void) { SYM_BASE(); FMT_PRE(u16, 16, 16, 18);
+/*@GROUP name=to_chars_u16 props=C10,C02 kind=K unwind=20 tier=thorough timeout=600 cost=3 split=CC_B:2:36@*/
+void h_to_chars_u16(void) { const int base = CC_B; FMT_PRE(u16, 16, 16, 18);
   VF_KNOWN(C10_format_store_before_length_check, v != 0 && L == 0);
   VF_KNOWN(C10_to_chars_exact_fit_rejected, v != 0 && L == n);
   TO_CHARS_POST(u16, 16, 16); }
 
-/*@GROUP name=from_integer_i16 props=C10,C02 kind=K unwind=20 tier=thorough timeout=1200 solver=kissat cost=8@*/
-void h_from_integer_i16(void) { SYM_BASE(); FMT_PRE(i16, 16, 16, 18);
+/*@GROUP name=from_integer_i16 props=C10,C02 kind=K unwind=20 tier=thorough timeout=600 cost=3 split=CC_B:2:36@*/
+void h_from_integer_i16(void) { const int base = CC_B; FMT_PRE(i16, 16, 16, 18);
   VF_KNOWN(C10_format_store_before_length_check, v != 0 && (L == 0 || (L == 1 && v < 0 && base == 10)));
   VF_KNOWN(C10_format_sign_only_base10, v < 0 && base != 10);
   FROM_INTEGER_POST(i16, 16, 16); }
 
-/*@GROUP name=from_integer_u16 props=C10,C02 kind=K unwind=20 tier=thorough timeout=1200 solver=kissat cost=8@*/
-void h_from_integer_u16(void) { SYM_BASE(); FMT_PRE(u16, 16, 16, 18);
+/*@GROUP name=from_integer_u16 props=C10,C02 kind=K unwind=20 tier=thorough timeout=600 cost=3 split=CC_B:2:36@*/
+void h_from_integer_u16(void) { const int base = CC_B; FMT_PRE(u16, 16, 16, 18);
   VF_KNOWN(C10_format_store_before_length_check, v != 0 && L == 0);
   FROM_INTEGER_POST(u16, 16, 16); }
 
-/*@GROUP name=from_chars_i16 props=C10,C02 kind=K unwind=22 tier=thorough timeout=1200 solver=kissat cost=8@*/
-void h_from_chars_i16(void) { SYM_BASE(); RANGE_IN(19); FROM_CHARS_PRE(i16, 16, 19);
+/*@GROUP name=from_chars_i16 props=C10,C02 kind=K unwind=22 tier=thorough timeout=600 cost=3 split=CC_B:2:36@*/
+void h_from_chars_i16(void) { const int base = CC_B; RANGE_IN(19); FROM_CHARS_PRE(i16, 16, 19);
   VF_KNOWN(C10_from_chars_out_of_range_ptr, r.cls == 2);
   FROM_CHARS_POST(i16); }
 
-/*@GROUP name=from_chars_u16 props=C10,C02 kind=K unwind=22 tier=thorough timeout=1200 solver=kissat cost=8@*/
-void h_from_chars_u16(void) { SYM_BASE(); RANGE_IN(19); FROM_CHARS_PRE(u16, 16, 19);
+/*@GROUP name=from_chars_u16 props=C10,C02 kind=K unwind=22 tier=thorough timeout=600 cost=3 split=CC_B:2:36@*/
+void h_from_chars_u16(void) { const int base = CC_B; RANGE_IN(19); FROM_CHARS_PRE(u16, 16, 19);
   VF_KNOWN(C10_from_chars_out_of_range_ptr, r.cls == 2);
   FROM_CHARS_POST(u16); }
 
-/*@GROUP name=to_integer_i16 props=C10,C02 kind=K unwind=22 tier=thorough timeout=1200 solver=kissat cost=8@*/
-void h_to_integer_i16(void) { SYM_BASE(); RANGE_IN(19); TO_INTEGER_PRE(i16, 16, 19); TO_INTEGER_POST(i16); }
+/*@GROUP name=to_integer_i16 props=C10,C02 kind=K unwind=22 tier=thorough timeout=600 cost=3 split=CC_B:2:36@*/
+void h_to_integer_i16(void) { const int base = CC_B; RANGE_IN(19); TO_INTEGER_PRE(i16, 16, 19); TO_INTEGER_POST(i16); }
 
-/*@GROUP name=to_integer_u16 props=C10,C02 kind=K unwind=22 tier=thorough timeout=1200 solver=kissat cost=8@*/
-void h_to_integer_u16(void) { SYM_BASE(); RANGE_IN(19); TO_INTEGER_PRE(u16, 16, 19); TO_INTEGER_POST(u16); }
+/*@GROUP name=to_integer_u16 props=C10,C02 kind=K unwind=22 tier=thorough timeout=600 cost=3 split=CC_B:2:36@*/
+void h_to_integer_u16(void) { const int base = CC_B; RANGE_IN(19); TO_INTEGER_PRE(u16, 16, 19); TO_INTEGER_POST(u16); }
 
-/*@GROUP name=roundtrip_i16 props=C10,C02 kind=K unwind=21 tier=thorough timeout=1200 solver=kissat cost=8@*/
-void h_roundtrip_i16(void) { SYM_BASE(); ROUNDTRIP_PRE(i16, 16);
+/*@GROUP name=roundtrip_i16 props=C10,C02 kind=K unwind=21 tier=thorough timeout=600 cost=3 split=CC_B:2:36@*/
+void h_roundtrip_i16(void) { const int base = CC_B; ROUNDTRIP_PRE(i16, 16);
   VF_KNOWN(C10_format_sign_only_base10, v < 0 && base != 10);
   ROUNDTRIP_POST(i16, 16); }
 
-/*@GROUP name=roundtrip_u16 props=C10,C02 kind=K unwind=21 tier=thorough timeout=1200 solver=kissat cost=8@*/
-void h_roundtrip_u16(void) { SYM_BASE(); ROUNDTRIP_PRE(u16, 16); ROUNDTRIP_POST(u16, 16); }
+/*@GROUP name=roundtrip_u16 props=C10,C02 kind=K unwind=21 tier=thorough timeout=600 cost=3 split=CC_B:2:36@*/
+void h_roundtrip_u16(void) { const int base = CC_B; ROUNDTRIP_PRE(u16, 16); ROUNDTRIP_POST(u16, 16); }
 
 /* =========================================== 32 / 64 bit, base fixed per cell (thorough) ================================== */
 /* split=CC_BI:0:3 -> base 8, 10, 16, 36 (one K proof per (type, base) cell); base 2 in *_b2 groups (longest unwinding).
